@@ -21,6 +21,7 @@ import (
 	"github.com/zitadel/saml/pkg/provider"
 	"github.com/zitadel/saml/pkg/provider/key"
 
+	"verif/harness/internal/c18"
 	"verif/harness/internal/coqgen"
 	"verif/harness/internal/idp"
 	"verif/harness/internal/sso"
@@ -124,7 +125,7 @@ func fpOf(rep *idp.Reply) fingerprint {
 
 func Run(dir, tier string, seed int64) error {
 	run := coqgen.NewRun(dir, "C11", tier, seed)
-	run.Imports = "From Saml Require Import Base.Bytes Gen.Pure Idp.Router Corr.C11Corr."
+	run.Imports = "From Saml Require Import Base.Bytes Xml.Tree Gen.Pure Idp.Router Idp.BuilderTypes Idp.Builder Corr.C11Corr."
 	run.CaseType = "c11case"
 	run.BadFn = "c11_bad"
 	run.PerShard = 200
@@ -368,6 +369,27 @@ func Run(dir, tier string, seed int64) error {
 		}
 		desc["entityID"] = entity
 		run.AddCase(id, fmt.Sprintf("KMeta %s %s %s %s %s", coqgen.Z(int64(id)), c.coq(), coqgen.Bytes(issuer), coqgen.Bytes(entity), coqgen.List(locs)), desc)
+		// the whole document against the translated metadata builders (Gen/Builders.v) and the struct tags
+		{
+			mp := c18.MetaParams{}
+			if ex.org != "" {
+				mp.Org = &[3]string{ex.org, ex.org + " (display)", "https://org.example/?a=1&b=" + ex.org}
+			}
+			if ex.contact != "" {
+				mp.Contact = &[6]string{"technical", ex.contact + " co", ex.contact + " gn", ex.contact + " sn", ex.contact + " mail", ex.contact + " tel"}
+			}
+			if ex.enc {
+				mp.Enc = "http://www.w3.org/2001/04/xmlenc#aes256-cbc"
+			}
+			if ex.meta {
+				mp.Cache, mp.ErrURL = "PT1H", "https://idp.example/error?a=1&b=2"
+			}
+			if mc, ok := c18.MetadataCase(id+500000, rep.Body, issuer, mp); ok {
+				run.Res.Evaluations++
+				run.Count("built=metadata")
+				run.AddCase(id+500000, "KMetaDoc "+mc, map[string]interface{}{"conf": desc, "document": string(rep.Body)})
+			}
+		}
 		run.Distinct(fmt.Sprintf("%s/%s/%s/%s/%v", ic.name, c.meta.String(), c.sso.String(), c.attr.String(), noDup))
 		if ci%7 == 0 {
 			run.Sample(desc)
